@@ -2,7 +2,7 @@
   Line-protocol driver of C02 (core-only).
 
     run <kind>/<topic hex>/<mws> <script>+
-        kind   pub | pubdeco | dis | disdeco | nil   (AddHandler+publisher | the same with a pass-through publisher
+        kind   pub | pubdeco | dis | disdeco | nil | nildeco  (AddHandler+publisher | the same with a pass-through publisher
                                               decorator | AddNoPublisherHandler | the same with a recording publisher
                                               decorator | AddHandler with a nil publisher); optional 4th field /<E|N><sxo*>:
                                               a second handler on the router, see parseCfg
@@ -10,7 +10,7 @@
                p = passthrough, o = appends one output (id 100+position) to whatever the inner handler returned,
                r = copies the outputs into a fresh slice (empty but NON-NIL when there are none);
                lower case = router level (Router.AddMiddleware), upper case = handler level (Handler.AddMiddleware)
-        script <self>.<result>.<pub>   self: - a n Aw Al Nw Nl   result: r<k> z0 e<k> c<k> d<k> w<k> x<k> u<k> j<k> p<x>
+        script <self>.<result>.<pub>   self: - a n Aw Al Nw Nl   result: r<k> q<k> Q<k> z0 e<k> c<k> d<k> w<k> x<k> u<k> j<k> p<x>
                pub: ok err panic rej<k>
                (Aw/Al/Nw/Nl: the handler starts a helper goroutine that Acks/Nacks the message at the moment the Router
                 settles it the other way; w/l = what the helper's call returned, recorded by the harness – the model checks)
@@ -86,6 +86,7 @@ def parseCfg (s : String) : Option DCfg :=
     | "dis"     => if tb.isEmpty then some ⟨⟨.disabled, ""⟩, false, mws, k⟩ else none
     | "disdeco" => if tb.isEmpty then some ⟨⟨.disabled, ""⟩, true, mws, k⟩ else none
     | "nil"     => some ⟨⟨.nilPub, topic⟩, true, mws, k⟩
+    | "nildeco" => some ⟨⟨.nilPub, topic⟩, true, mws, k⟩    -- nil publisher with a publisher decorator configured: still none
     | _ => none
   | none => none
 
@@ -124,6 +125,8 @@ def parseResult (s : String) : Option (Result Nat) :=
       match c with
       | 'r' => some (.returns (List.range k) false)
       | 'z' => if k = 0 then some (.returns [] false) else none
+      | 'q' => some (.returns (List.range k) false)   -- outputs carrying an already cancelled context
+      | 'Q' => some (.returns (List.range k) false)   -- outputs carrying a context whose deadline has passed
       | 'e' => some (.returns (List.range k) true)
       | 'c' => some (.returns (List.range k) true)
       | 'd' => some (.returns (List.range k) true)   -- context.DeadlineExceeded
@@ -330,6 +333,14 @@ def monitor1 (d : DCfg) (sc : Script) (w : String) : String :=
       let accepted := outs.isEmpty || (d.cfg.kind = .withPub && outs.all (fun x => acceptedIds.contains x))
       let wantAck := chainEnds = "ok" && accepted
       if wantAck && fin != "a" then return "violated:nack_but_handled_and_published"
+      -- Nack only if the chain returned an error, panicked, or publishing failed or panicked: with a real publisher and a
+      -- successful chain the Router must at least have offered every returned message to that publisher (unless a call
+      -- already failed or panicked) – a Nack without asking the publisher has none of the stated reasons
+      if !wantAck && fin = "n" && chainEnds = "ok" && d.cfg.kind = .withPub && !outs.isEmpty then
+        let offered := o.pubs.flatMap (·.ids)
+        let failed := o.pubs.any (fun p => p.ret != "ok")
+        if !failed && !(outs.all (fun x => offered.contains x)) then
+          return "violated:nack_without_offering_outputs_to_publisher"
       if !wantAck && fin = "a" then
         return (if chainEnds = "error" then "violated:ack_after_error"
                 else if chainEnds = "panic" then "violated:ack_after_panic"
